@@ -768,8 +768,9 @@ class HistRun:
                 tok = {"record": True}
             return {"op": "report", "report": "sync", "coll": c.path, "token": tok}
         if k == "put_invalid":
-            c = self.pick_coll(("calendar", "addressbook"))
-            if c.kind == "calendar":
+            # the media type decides, not the collection: plain WebDAV collections refuse them too
+            c = self.pick_coll(("calendar", "addressbook", "plain") if r.random() < 0.3 else ("calendar", "addressbook"))
+            if c.kind == "calendar" or (c.kind == "plain" and r.random() < 0.6):
                 cls = r.choice(sorted(gen.INVALID_ICS))
                 body = gen.INVALID_ICS[cls](r)
                 ext, ct = ".ics", "text/calendar"
